@@ -65,12 +65,12 @@ def Q1(c=1, discipline=None, first=None, burst=None, pos=True, cap_=None, syscap
 
 
 @config
-def P1(c=1, pre=False, classes=2, discipline=None, first=None, burst=None, to=None):
+def P1(c=1, pre=False, classes=2, discipline=None, first=None, burst=None, to=None, pos=True):
     """priorities; pre in False/resume/restart/resample/reroute(with second node)"""
     names = ["A", "B", "C"][:classes]
     two = pre == "reroute"
     nn = 2 if two else 1
-    ad = {k: [arr("a" + k, True, burst)] + [None] * (nn - 1) for k in names}
+    ad = {k: [arr("a" + k, pos, burst)] + [None] * (nn - 1) for k in names}
     sd = {k: [D("s" + k)] + [D("t" + k)] * (nn - 1) for k in names}
     bd = {k: [batches(first if k == names[-1] else None)] + [ciw.dists.Deterministic(1)] * (nn - 1) for k in names}
     pc = {k: i for i, k in enumerate(names)}
@@ -88,8 +88,8 @@ def P1(c=1, pre=False, classes=2, discipline=None, first=None, burst=None, to=No
 
 # ---- tandem / loops (blocking) ------------------------------------------------------------------
 @config
-def T2(c1=1, c2=1, caps=("inf", 0), first=None, burst=None, a2=False, prio=False, p12=1.0, shared=False):
-    ad = [arr("a1", True, burst), arr("a2", True, burst) if a2 else None]
+def T2(c1=1, c2=1, caps=("inf", 0), first=None, burst=None, a2=False, prio=False, p12=1.0, shared=False, pos=True):
+    ad = [arr("a1", pos, burst), arr("a2", pos, burst) if a2 else None]
     if shared:
         # the same distribution *objects* are listed for both nodes: every node must still get its own stream
         sa, ss, sb = arr("a", True, burst), D("s"), ChoiceBatch([1, 2], label="batch")
@@ -223,7 +223,7 @@ class Jockey(R.Leave):
 
 
 @config
-def RN(c=1, jockey=False, prio=False, pre=False, first=None, burst=None, sched=False, blockedinto=False, syscap=None, cap_=None, cap2=1, first1=None):
+def RN(c=1, jockey=False, prio=False, pre=False, first=None, burst=None, sched=False, blockedinto=False, syscap=None, cap_=None, cap2=1, first1=None, pos=True):
     if blockedinto:
         # node1 -> node2 (c=1, cap 1, reneging at node 2): a renege at node 2 frees a place for a customer blocked at node 1
         net = ciw.create_network(arrival_distributions=[arr("a1", True, burst), arr("a2", True, burst)],
@@ -253,7 +253,7 @@ def RN(c=1, jockey=False, prio=False, pre=False, first=None, burst=None, sched=F
         kw["system_capacity"] = syscap
     if cap_ is not None:
         kw["queue_capacities"] = [cap_]
-    net = ciw.create_network(arrival_distributions=[arr("a", True, burst)], service_distributions=[D("s")], number_of_servers=[ns],
+    net = ciw.create_network(arrival_distributions=[arr("a", pos, burst)], service_distributions=[D("s")], number_of_servers=[ns],
                              reneging_time_distributions=[D("p")], batching_distributions=[batches(first)], **kw)
     return Cfg(net, flags)
 
@@ -281,11 +281,11 @@ class BaulkFn:
 
 
 @config
-def BK(kind="sym", c=1, first=None, burst=None, cap_=None):
+def BK(kind="sym", c=1, first=None, burst=None, cap_=None, pos=True):
     kw = {}
     if cap_ is not None:
         kw["queue_capacities"] = [cap_]
-    net = ciw.create_network(arrival_distributions=[arr("a", True, burst)], service_distributions=[D("s")], number_of_servers=[c],
+    net = ciw.create_network(arrival_distributions=[arr("a", pos, burst)], service_distributions=[D("s")], number_of_servers=[c],
                              baulking_functions=[BaulkFn(kind)], batching_distributions=[batches(first)], **kw)
     return Cfg(net)
 
@@ -605,3 +605,18 @@ def DL3(c=(2, 1, 1), first=(2, 1, 1), burst=1):
                              service_distributions=[D("s1"), D("s2"), D("s3")], number_of_servers=list(c), queue_capacities=[0, 0, 0],
                              routing=M, batching_distributions=[batches(first[0]), batches(first[1]), batches(first[2])])
     return Cfg(net, {"routing": {"Customer": ("nodes", [("prob", [1, 2, 3], row) for row in M])}})
+
+
+@config
+def SCD(first=None, burst=None, cap2=1, pre=False, c1=1):
+    """tandem whose *destination* has the server schedule (non-pre-emptive by default): customers are blocked towards a
+    node whose servers go off duty and finish services as overtime"""
+    tt = {2: dict(kind="schedule", bounds=list(SC_BOUNDS), values=list(SC_VALUES), offset=0.0, preemption=pre)}
+    net = ciw.create_network(arrival_distributions=[arr("a", True, burst), None], service_distributions=[D("s1"), D("s2")],
+                             number_of_servers=[c1, ciw.Schedule(numbers_of_servers=list(SC_VALUES), shift_end_dates=list(SC_BOUNDS), preemption=pre)],
+                             queue_capacities=[INF, cap2], routing=[[0.0, 1.0], [0.0, 0.0]],
+                             batching_distributions=[batches(first), batches(None)])
+    flags = {"timetable": tt, "routing": {"Customer": ("nodes", [("prob", [1, 2], [0.0, 1.0]), ("prob", [1, 2], [0.0, 0.0])])}}
+    if pre is not False:
+        flags["preemptive_schedule"] = True
+    return Cfg(net, flags)
